@@ -10,7 +10,7 @@ EXPLANATION = (
     "access to the shared sets idle/busy and the closed flag (also through num_workers) lies inside one `with self.count_lock` "
     "region; in Pool.close every access to the sets lies inside some region; the lock exists before the first worker starts; "
     "no join/sleep/wait/job execution happens while the lock is held; process hands the job to exactly one worker on every "
-    "non-raising path, creates a worker only under the THREADPOOL_SIZE bound and otherwise raises NoFreeWorkersError, which the "
+    "non-raising path, inside the lock region that picked the worker, creates a worker only under the THREADPOOL_SIZE bound and otherwise raises NoFreeWorkersError, which the "
     "accept path answers with denyConnection (refusal handshake with a reason, socket closed on every path); the worker loop "
     "clears its slot before returning to the pool and ends on a None job; close hands None to every worker and empties both "
     "sets. Not decided: races inside the interpreter's set operations, liveness of close, timing."
